@@ -13,9 +13,11 @@ LEVEL = "exploration"
 TECHNIQUE = "reference-model monitor: before/after snapshot of every symbol mention (expressions, CFI directives, symbolForwarding, CFG) vs the listing with A renamed to B and an independent copy of the ABI attribute-conversion table"
 RULE = (
     "generated modules (as C01) where symbols A are used in branch/call "
-    "operands, code data references, data words, CFI personality/LSDA "
+    "operands (also memory-indirect 'call *A(%rip)' whose edge is marked "
+    "indirect), code data references, data words, CFI personality/LSDA "
     "directives and symbolForwarding values; 1-3 retargets per context "
-    "(A,B internal/external in every combination, chains A->B,B->C, "
+    "(A,B internal/external in every combination, A also undefined "
+    "without a proxy block, chains A->B,B->C, "
     "optionally with an unrelated insertion), x86-64 ELF PIE/non-PIE, "
     "x86-64 PE, IA32 PE, ARM64 PIE/non-PIE with input attributes following "
     "the ABI's internal/external convention (plus attributes no rule "
